@@ -19,7 +19,7 @@ const (
 	DropAfter                     // append, close the connection (lost acknowledgement)
 	NoBlock                       // append nothing, answer without a block for the selected partitions
 	LeaderMoved                   // answer NotLeaderForPartition and move the selected partitions to the other broker
-	Duplicate                     // answer DuplicateSequenceNumber (success without offsets)
+	Duplicate                     // append, answer DuplicateSequenceNumber (success without offsets)
 )
 
 var faultNames = []string{"ok", "retriable", "retriable-appended", "fatal", "drop-before", "drop-after", "noblock", "leader-moved", "duplicate"}
@@ -208,6 +208,7 @@ func (c *Cluster) produce(broker int, r *sarama.ProduceRequest) interface{} {
 			app()
 			resp.AddTopicPartition(b.Topic, b.Partition, sarama.KError(f.Err))
 		case Duplicate:
+			app() // "already appended, the earlier acknowledgement was lost": the log holds the records
 			resp.AddTopicPartition(b.Topic, b.Partition, sarama.ErrDuplicateSequenceNumber)
 		case DropAfter:
 			app()
